@@ -47,6 +47,7 @@ type wholeOp struct {
 	multi   bool   // several outputs (split, cut, extract, ...)
 	inplace bool   // supports outFile == "" (write back to the input)
 	needOut bool   // the output must already exist (append)
+	reader  bool   // the panic comes from the caller's io.Reader, not from a logger
 	run     func(dir, in, in2, out string) error
 }
 
@@ -104,6 +105,20 @@ func wholeOps(thorough bool) []wholeOp {
 			ctx.Write.FileName = filepath.Base(out)
 			return pdfcpu.WriteContext(ctx)
 		}},
+		{name: "CreatePDFFile", run: func(dir, in, in2, out string) error {
+			ctx, err := api.ReadValidateAndOptimize(mustOpen(in), model.NewDefaultConfiguration())
+			if err != nil {
+				return err
+			}
+			return api.CreatePDFFile(ctx.XRefTable, out, model.NewDefaultConfiguration())
+		}},
+		{name: "WriteReader", reader: true, run: func(dir, in, in2, out string) error {
+			return pdfcpu.WriteReader(out, &panicReader{data: []byte("partial data")})
+		}},
+		{name: "Write", reader: true, run: func(dir, in, in2, out string) error {
+			_, err := pdfcpu.Write(&panicReader{data: []byte("partial data")}, out, false)
+			return err
+		}},
 		{name: "SplitFile", multi: true, run: func(dir, in, in2, out string) error { return api.SplitFile(in, dir, 1, nil) }},
 		{name: "ExtractPagesFile", multi: true, run: func(dir, in, in2, out string) error { return api.ExtractPagesFile(in, dir, nil, nil) }},
 		{name: "NDownFile", multi: true, run: func(dir, in, in2, out string) error {
@@ -140,6 +155,25 @@ func wholeOps(thorough bool) []wholeOp {
 		)
 	}
 	return ops
+}
+
+// a caller-supplied reader that hands out its data and then panics (when readerPanics is set)
+var readerPanics bool
+
+type panicReader struct {
+	data []byte
+	done bool
+}
+
+func (p *panicReader) Read(b []byte) (int, error) {
+	if !p.done {
+		p.done = true
+		return copy(b, p.data), nil
+	}
+	if readerPanics {
+		panic("C01: injected reader panic")
+	}
+	return 0, io.EOF
 }
 
 var openedInputs []*os.File
@@ -184,6 +218,7 @@ func runWhole(r *vh.Run, n int, op wholeOp, rel string, multiPDF, smallPDF strin
 	before := rawSnapshot(dir)
 	l := &panicLogger{at: at}
 	install(l)
+	readerPanics = op.reader && at >= 0
 	res := wholeResult{ctl: "ok", before: before}
 	func() {
 		defer func() {
@@ -295,6 +330,9 @@ func partWholeOps(r *vh.Run) {
 					r.OracleOK()
 				}
 				continue
+			}
+			if op.reader {
+				rec.calls = 1 // one run with the panicking reader
 			}
 			// panic at log-call index i
 			var idx []int
